@@ -46,7 +46,7 @@ Section Tokens.
     intros r cs st ch H Hnb. unfold skipped_char.
     pose proof (ensure_spec step maxSeq c HC HS r cs st H) as He.
     destruct (ensure c r) as [[r1 b]|[| |e]]; try contradiction.
-    2:{ subst st. destruct Hnb; discriminate. }
+    2:{ unfold noBad in Hnb; unfold errOK in *; intuition congruence. }
     destruct He as [H1 [_ [_ [Hb1 Hb0]]]]. destruct b.
     - destruct (Hb1 eq_refl) as [x [t Ec]]. unfold rd. rewrite Ec. cbn [nth_error].
       destruct (adv1_StL step c r1 x t cs st H1 Ec) as [r2 [cs2 [Ea [Ecs [H2 _]]]]].
@@ -65,7 +65,7 @@ Section Tokens.
     intros r cs st H Hnb. unfold peek_next.
     pose proof (ensure_spec step maxSeq c HC HS r cs st H) as He.
     destruct (ensure c r) as [[r1 b]|[| |e]]; try contradiction.
-    2:{ subst st. destruct Hnb; discriminate. }
+    2:{ unfold noBad in Hnb; unfold errOK in *; intuition congruence. }
     destruct He as [H1 [_ [_ [Hb1 Hb0]]]]. destruct b.
     - destruct (Hb1 eq_refl) as [x [t Ec]]. unfold rd. rewrite Ec. cbn [nth_error].
       destruct (St_ccur_prefix r1 cs st H1) as [D ED]. rewrite Ec in ED. subst cs. cbn [spec_peek app].
@@ -85,7 +85,7 @@ Section Tokens.
     cbn [want_chars]. destruct (Nat.ltb_spec (length (ccur r)) n) as [Hlt|Hge].
     - pose proof (refresh_char_spec step maxSeq c HC HS r cs st H) as Hr.
       destruct (refresh_char c r) as [[r1 b]|[| |e]]; try contradiction.
-      2:{ subst st. destruct Hnb; discriminate. }
+      2:{ unfold noBad in Hnb; unfold errOK in *; intuition congruence. }
       destruct Hr as [H1 [_ [_ [[new Enew] [_ [Hb0 Hprog]]]]]].
       destruct (strict && negb b) eqn:Esb.
       { split; [exact H1|]. split; [discriminate|]. intros _.
